@@ -602,7 +602,17 @@ class Engine:
             if isinstance(t, TTuple):
                 return len(t.ts) > 0
             if isinstance(t, TSet):
-                return v.e != t.empty()      # a set is true iff it is not the empty set (arrays are extensional)
+                if self.spec or not z3.is_const(v.e) and not self._ground(v.e):
+                    return v.e != t.empty()      # a set is true iff it is not the empty set (arrays are extensional)
+                # in code: a fresh boolean b with b <=> exists x. x in S, Skolemised (b -> w in S) and as a clause
+                # (x in S -> b); complete for sets given by comprehension, where extensionality is not
+                self.fresh_n += 1
+                b = z3.Bool('nonempty!%d' % self.fresh_n)
+                w = z3.Const('member!%d' % self.fresh_n, t.t.sort())
+                x_ = z3.Const('sx!%d' % self.fresh_n, t.t.sort())
+                self.assume(z3.Implies(b, z3.Select(v.e, w)))
+                self.assume(z3.ForAll([x_], z3.Implies(z3.Select(v.e, x_), b)))
+                return b
             h = self.truth_hooks.get(t.name)
             if h is not None:
                 return h(self, v)          # truthiness of an abstract object (e.g. a graph: non-empty), given by the contract
@@ -615,6 +625,21 @@ class Engine:
             raise EngineError('truth of an iterator')
         if isinstance(v, Obj) and 'truth' in v.__dict__:
             return v.__dict__['truth']       # truthiness of an abstract object, given by the contract
+        return True
+
+    def _ground(self, e):
+        """no free (bound-elsewhere) variables in the expression"""
+        seen, stack = set(), [e]
+        while stack:
+            x = stack.pop()
+            if x.get_id() in seen:
+                continue
+            seen.add(x.get_id())
+            if z3.is_var(x):
+                return False
+            if z3.is_quantifier(x):
+                continue
+            stack.extend(x.children())
         return True
 
     def _b(self, x):
